@@ -176,6 +176,60 @@ def kept_connection_denials(chk, stack, runner, callers):
                           {"requests_on_one_connection": [list(t) for t in trace]}, expected=want_failed, observed=got)
 
 
+def denials_before_the_status_task(chk, binp):
+    """the listener serves (and refuses) requests before the task that publishes the status file has started: the denials made by
+    then are in the first status file it writes, and stay there"""
+    import json as _json
+    import os
+    stack = e2e.Stack(binp)
+    try:
+        callers = pipe.Callers(stack)
+        deny = {"id": "deny-all", "mode": "enforce", "defaultAccess": "deny", "rules": {"privileges": [], "roles": [], "identities": [], "roleAssignments": []}}
+        r = stack.ctl("rules imds %s" % vlib.hx(rb.doc_json(deny)))
+        assert r == "ok", r
+        c = callers.caller(1000, "curl", False)
+
+        def denied(k):
+            conn = stack.connect(audit=(1000, c["pid"], 0, e2e.IMDS[0], e2e.IMDS[1]))
+            try:
+                return conn.request(e2e.build_request("GET", "/metadata/instance?early=%d" % k, [(b"Host", b"h")]), b"GET", 5.0)
+            finally:
+                conn.close()
+        made = 0
+        for k in range(3):
+            r_ = denied(k)
+            made += 1 if (r_ is not None and r_["status"] == 403) else 0
+        time.sleep(0.2)
+        sd = stack.sd
+        r = stack.ctl("sinks %s %s %s 60" % (vlib.hx(sd + "/logs"), vlib.hx(sd + "/events"), vlib.hx(sd + "/status")))     # the status task starts now
+        assert r == "ok", r
+        seen = []
+        for want_more in (0, 2):
+            for k in range(want_more):
+                r_ = denied(10 + k)
+                made += 1 if (r_ is not None and r_["status"] == 403) else 0
+            time.sleep(0.6)
+            try:
+                sj = _json.load(open(os.path.join(sd, "status", "status.json")))
+                total = sum(int(x.get("count", 0)) for x in sj.get("failedAuthenticateSummary", []))
+            except (OSError, ValueError):
+                total = None
+            seen.append((made, total))
+        chk.case(nontrivial_key=("denials-before-status-task", tuple(seen)))
+        chk.count("denials_before_the_status_task")
+        for made_, total in seen:
+            if total is None:
+                chk.disagreement("status-file", {"published": seen}, "a readable status.json", "none")
+                break
+            if total != made_:
+                chk.violation("failed-authorization summary does not count each denial exactly once under its caller",
+                              {"situation": "3 requests refused before the status task started, 2 more afterwards", "(denials made, count published)": seen},
+                              expected=made_, observed=total)
+                break
+    finally:
+        stack.close()
+
+
 def run(chk):
     if not e2e.in_netns():
         e2e.reexec_in_netns()
@@ -273,6 +327,7 @@ def run(chk):
         chk.sample(runner.describe(runner.observations[0]))
     finally:
         stack.close()
+    denials_before_the_status_task(chk, binp)
     # enforce-mode rules that deny everybody, and the task holding them dies: still nothing is relayed
     for first in ("imds", "ws-elevated"):
         for ob in pipe.rules_lookup_fails(binp, chk.count, first):
